@@ -27,7 +27,9 @@ ASSUMPTIONS = [
     "when several equally specific ranges match an offer with different q the check is set-valued",
 ]
 TIERS = {"quick": dict(nshards=16, multisets=160, offers_per=6), "thorough": dict(nshards=64, multisets=1100, offers_per=20)}
-QS = [None, "0", "0.001", "0.5", "1", "1.000", "abc", "1.2.3", "-0.5", "1.5", "2"]
+QS = [None, "0", "0.001", "0.5", "1", "1.000", "abc", "1.2.3", "-0.5", "1.5", "2",
+      # spellings float() would take (or choke on) but the q grammar does not have
+      "1e0", "0e0", "0_1", "0x1", "1-1", "1.", ".5", "+0.5"]
 
 
 def shards(tier, seed):
@@ -46,7 +48,9 @@ def qval(q):
 MEDIA = ["text/html", "text/plain", "text/*", "*/*", "application/json", "application/*", "text/html;level=1", "image/png", "TEXT/HTML",
          "text/html;level=1;version=2", "text/html;version=2;level=1", "text/*;format=flowed", "*/*;a=1;b=2", "text/plain;format=flowed;delsp=yes"]
 OFF_M = ["text/html", "text/plain", "application/json", "image/png", "application/xml",
-         "text/html;level=1", "text/html; version=2; level=1", "text/plain;delsp=yes;format=flowed"]
+         "text/html;level=1", "text/html; version=2; level=1", "text/plain;delsp=yes;format=flowed",
+         # optional whitespace before the ';' of a parameter (RFC 9110 5.6.6)
+         "text/html ;level=1", "text/plain ; format=flowed ; delsp=yes"]
 
 
 def m_spec(r):
